@@ -293,6 +293,8 @@ def m_partial_ord_default(sim, st, c):
         return Const(sim.float_rel(st, a, b, set(REL_SETS[name])), prim("bool"))
     if single_int_field_struct(sim, sty) and sim.prog.is_derived_impl("PartialOrd", sty["name"]):
         a, b = sim.expand(st, a), sim.expand(st, b)
+        if not (isinstance(a, Struct) and isinstance(b, Struct)):
+            raise S.Unsupported("comparison of %r with %r" % (a, b))
         return Const(sim.int_sign(st, int_sub(sim.resolve(st, a.fields[0]), sim.resolve(st, b.fields[0])), set(REL_SETS[name])), prim("bool"))
     r = call_trait_impl(sim, st, c, "std::cmp::PartialOrd", "partial_cmp", c["gargs"], [c["args"][0], c["args"][1]],
                         post=("post", "ord_to_bool", name))
@@ -455,7 +457,15 @@ def unop_fallback(op):
     return f
 
 
+def m_into_unresolved(sim, st, c):
+    """`x.into()` inside a generic fn (`L: Into<Quantity>`), concrete after substitution: the blanket impl, i.e. U::from(x)"""
+    if len(c["gargs"]) < 2 or c["gargs"][0].get("k") == "param":
+        return sim.oracle_call(st, c)
+    return (m_try_into if c["orig"]["name"] == "try_into" else m_into)(sim, st, c)
+
+
 TRAIT_FALLBACK = {
+    ("Into", "into"): m_into_unresolved, ("TryInto", "try_into"): m_into_unresolved,
     ("Add", "add"): binop_fallback("Add"), ("Sub", "sub"): binop_fallback("Sub"),
     ("Mul", "mul"): binop_fallback("Mul"), ("Div", "div"): binop_fallback("Div"),
     ("AddAssign", "add_assign"): assign_fallback("Add"), ("SubAssign", "sub_assign"): assign_fallback("Sub"),
@@ -644,6 +654,8 @@ def as_iterator(sim, st, v):
     if isinstance(v, (Enum, Sym)) and getattr(v, "ty", None) is not None and is_adt(v.ty, "Option"):
         e = sim.force_variant(st, v)
         return Opaque("ArrayIntoIter", ((e.fields[0],) if e.vname == "Some" else (), 0))
+    if isinstance(v, Opaque) and v.kind == "List":
+        return Opaque("ArrayIntoIter", (tuple(v.data[0]), 0))     # a Vec / VecDeque by value
     if isinstance(v, Opaque) or (isinstance(v, Struct) and v.ty and is_adt(v.ty, "Range")):
         return v
     raise S.Unsupported("into_iter of %r" % (v,))
@@ -816,7 +828,7 @@ def m_ptr_cast(sim, st, c):
     return c["args"][0]
 
 
-@pattern(r"^std::ptr::(const|mut)_ptr::<impl \*(const|mut) T>::read$")
+@pattern(r"^std::ptr::(const|mut)_ptr::<impl \*(const|mut) T>::read$|^std::ptr::read::<.*>$|^std::ptr::read$")
 def m_ptr_read(sim, st, c):
     r = sim.resolve(st, c["args"][0])
     if not isinstance(r, Ref):
@@ -878,6 +890,54 @@ def m_refcell_borrow_mut(sim, st, c):
     sim.write(st, p, Opaque("RefCell", (cell.data[0], -1), cell.ty))
     st.effects.append(("borrow_mut", sim.obj_label(st, p)))
     return Opaque("RefMutGuard", (p,))
+
+
+@pattern(r"^std::cell::RefCell::<T>::try_borrow(_mut)?$")
+def m_refcell_try_borrow(sim, st, c):
+    """Whether somebody further up the call stack holds a conflicting borrow is the caller's context: when the cell is free in
+    this run both outcomes are explored (Ok(guard) / Err), like a contended try_lock."""
+    p = sim.deref_value(st, c["args"][0])
+    cell = cell_at(sim, st, p)
+    mut = c["fn"]["name"].endswith("_mut")
+    label = sim.obj_label(st, p)
+    ety = c["ret_ty"]["args"][1]
+    busy = (cell.data[1] != 0) if mut else (cell.data[1] < 0)
+    if busy:
+        return sim.mk_enum(c["ret_ty"], "Err", [Sym("borrow_error(%s)" % label, ety)])
+    n = len([1 for e in st.effects if e[0] in ("borrow", "borrow_mut", "trycell-failed") and e[-1] == label])
+    key = ("trycell", label, n)
+    got = st.consts.get(key)
+    if got is None:
+        raise S.Fork([(("trycell", label, "free"), (lambda s_, k=key: s_.consts.__setitem__(k, "ok"))),
+                      (("trycell", label, "held-elsewhere"), (lambda s_, k=key: s_.consts.__setitem__(k, "busy")))])
+    if got == "busy":
+        st.effects.append(("trycell-failed", label))
+        return sim.mk_enum(c["ret_ty"], "Err", [Sym("borrow_error(%s)" % label, ety)])
+    if mut:
+        sim.write(st, p, Opaque("RefCell", (cell.data[0], -1), cell.ty))
+        st.effects.append(("borrow_mut", label))
+        return sim.mk_enum(c["ret_ty"], "Ok", [Opaque("RefMutGuard", (p,))])
+    sim.write(st, p, Opaque("RefCell", (cell.data[0], cell.data[1] + 1), cell.ty))
+    st.effects.append(("borrow", label))
+    return sim.mk_enum(c["ret_ty"], "Ok", [Opaque("RefGuard", (p,))])
+
+
+@model("std::cell::RefCell::<T>::as_ptr")
+def m_refcell_as_ptr(sim, st, c):
+    p = sim.deref_value(st, c["args"][0])
+    cell_at(sim, st, p)
+    return Ref(p.ext(("inner",)), True)
+
+
+@pattern(r"^std::ptr::eq::<.*>$|^std::ptr::eq$")
+def m_ptr_eq_raw(sim, st, c):
+    a, b = sim.resolve(st, c["args"][0]), sim.resolve(st, c["args"][1])
+    pa, pb = getattr(a, "ptr", None), getattr(b, "ptr", None)
+    if pa is not None and pb is not None:
+        return Const(pa == pb, prim("bool"))
+    if a == b:
+        return Const(True, prim("bool"))
+    return Term("ptr_eq", tuple(sorted((a, b), key=repr)), prim("bool"))
 
 
 def release_guard(sim, st, g):
@@ -1521,6 +1581,14 @@ def m_vec_into_iter_by_value(sim, st, c):
     raise S.Unsupported("into_iter of %r" % (l,))
 
 
+@pattern(r"^std::array::<impl \[T; N\]>::map$")
+def m_array_map(sim, st, c):
+    arr = sim.expand(st, sim.resolve(st, c["args"][0]))
+    if not isinstance(arr, Array):
+        raise S.Unsupported("array::map of %r" % (arr,))
+    return Array([sim.call_sync(st, c["args"][1], [e]) for e in arr.elems], c["ret_ty"])
+
+
 @model("std::array::from_fn")
 def m_array_from_fn(sim, st, c):
     n = const_val(c["ret_ty"]["len"])
@@ -1634,6 +1702,8 @@ def m_iter_zip(sim, st, c):
     other = sim.resolve(st, c["args"][1])
     if isinstance(other, Array):      # zip(array by value)
         other = Opaque("ArrayIntoIter", (tuple(other.elems), 0))
+    if isinstance(other, Opaque) and other.kind == "List":      # zip(vec by value)
+        other = Opaque("ArrayIntoIter", (tuple(other.data[0]), 0))
     if isinstance(other, Ref) and other.ptr.path and other.ptr.path[-1][0] == "sl":      # &collection[a..b]
         base, a, b = slice_bounds(sim, st, other)
         other = Opaque("SliceIter", (base, a, b, bool(other.mut)))
@@ -2008,7 +2078,10 @@ def m_opt_unwrap_or_default(sim, st, c):
         return Const(0.0, rt)
     if S.is_int_ty(rt):
         return Const(0, rt)
-    return Term("Default", (), rt)
+    r = call_trait_impl(sim, st, c, "std::default::Default", "default", [rt], [])
+    if r is None:
+        return Term("Default", (), rt)
+    return r
 
 
 
